@@ -253,7 +253,15 @@ func init() {
 					if c.Tier != "thorough" && (init == 3 || max == 1 || (init == 2 && max == 2)) {
 						continue // quick: (1,2) (1,3) (2,3)
 					}
-					for _, evs := range seqs {
+					evSeqs := seqs
+					if c.Tier != "thorough" && max <= 2 {
+						// quick: single events on the first worker at deviation bound 2 (an exit that
+						// overtakes the registration of the same worker needs two deviations)
+						for _, k := range c20Kinds {
+							evSeqs = append(evSeqs, []c20Event{{Worker: 0, Kind: k}})
+						}
+					}
+					for _, evs := range evSeqs {
 						idx++
 						if !c.Mine(idx) {
 							continue
@@ -267,6 +275,9 @@ func init() {
 						b := bound
 						if len(evs) == E && E >= 3 {
 							b = 1
+						}
+						if len(evs) == 1 && c.Tier != "thorough" {
+							b = 2
 						}
 						n := mc.Explore(b, func(rec *mc.Recorder) {
 							p := base
@@ -309,6 +320,9 @@ func init() {
 			c.Bound("configurations", fmt.Sprintf("1 <= init <= max <= %d", M))
 			c.Bound("event_sequences", fmt.Sprintf("all of length %d over %d workers x 4 kinds", E, W))
 			c.Bound("deviation_bound", bound)
+			if c.Tier != "thorough" {
+				c.Bound("deviation_bound_single_events_on_worker_0_max_le_2", 2)
+			}
 		},
 		Replay: func(c *mc.Ctx, raw json.RawMessage) {
 			var cs c20Case
